@@ -4,5 +4,5 @@ d=$(mktemp -d /tmp/dbg_XXXX)
 rsync -a --exclude .git /repo/ $d/
 (cd $d && patch -p1 --no-backup-if-mismatch -s -i /verif/$1/patch.diff)
 mkdir -p $d/.inl
-FCHECK_DEBUG=1 FCHECK_DUMP_INLINED=$d/.inl /verif/bin/fcheck -repo $d -prop $2 -no-evidence 2>&1 | cut -c1-4000
+FCHECK_DEBUG=1 FCHECK_DUMP_INLINED=$d/.inl ${FCHECK_BIN:-/verif/bin/fcheck} -repo $d -prop $2 -no-evidence 2>&1 | cut -c1-4000
 if [ -n "$KEEP" ]; then echo "kept $d"; else rm -rf $d; fi
